@@ -1236,7 +1236,7 @@ class PhasedVcfWriter(VcfAugmenter):
                 # is genotype to be changed?
                 if pos in genotypes and genotypes[pos] != gt_type:
                     # call['GT'] = INT_TO_UNPHASED_GT[genotypes[pos]]
-                    call["GT"] = tuple(genotypes[pos].as_vector())
+                    call["GT"] = tuple(sorted(genotypes[pos].as_vector()))
                     variant: Union[BiallelicVcfVariant, MultiallelicVcfVariant]
                     if len(record.alts) > 1:
                         variant = MultiallelicVcfVariant(record.start, record.ref, record.alts)
@@ -1260,19 +1260,41 @@ class PhasedVcfWriter(VcfAugmenter):
                     self._set_phasing_tags(call, components[pos], phases[pos], haploid_component)
                 else:
                     # Unphased
-                    call[self.tag] = None
+                    self._clear_phase_tag(call, self.tag)
+            if self.tag == "HP":
+                # If HP was added to this record just now, the HP values of the samples that are not
+                # being phased have never been set and would be written as NUL bytes or empty strings
+                for sample in self.samples:
+                    if sample not in sample_superreads:
+                        call = record.samples[sample]
+                        value = call["HP"]
+                        if value is None or all(v is None for v in value):
+                            self._clear_phase_tag(call, "HP")
             prev_pos = pos
         return genotype_changes
 
+    @staticmethod
+    def _clear_phase_tag(call: VariantRecordSample, tag: str):
+        """Set PS or HP of a call to missing"""
+        # A missing HP (a string) is written explicitly as ".": when it is set to None and no
+        # other sample of the record has an HP value, an empty (NUL) value ends up in the file
+        call[tag] = "." if tag == "HP" else None
+
     def _remove_existing_phasing(self, record: VariantRecord, samples: Iterable[str]):
-        if self.tag == "PS":
-            for sample in samples:
-                call = record.samples[sample]
-                if "GT" not in call:
-                    continue
+        """
+        Remove the phase information of the given samples no matter how it is encoded (phased
+        GT, PS or HP) and which tag is going to be written, so that old and new phasing are
+        never mixed. Unphased genotypes are sorted, which the HP encoding relies on.
+        """
+        for sample in samples:
+            call = record.samples[sample]
+            if "GT" in call:
                 call.phased = False
                 if call["GT"] is not None and all(allele is not None for allele in call["GT"]):
                     call["GT"] = sorted(call["GT"])
+            for tag in ("PS", "HP"):
+                if tag in call:
+                    self._clear_phase_tag(call, tag)
 
 
 def genotype_code(gt: Optional[Tuple[Optional[int], ...]]) -> Genotype:
